@@ -29,7 +29,8 @@ EXPLANATION = (
     'no dataflow from the kernel, so d out / d kernel is that operand. '
     'Non-negativity and sum-to-one of the interpolation weights, and TF\'s '
     'automatic differentiation of the remaining ops, are NOT decided / are '
-    'trusted.')
+    'trusted.'
+    ' Also decided: the zero-pattern case analysis of the hand-written gradient (G3: entry zero / non-zero x 0, 1, 2+ other zeros) reproduces the derivative of the product; gradient masks take the operand dtype (D1); with clip_inputs on every evaluation path clips (X5); no stale loop variable (X6).')
 ASSUMPTIONS = ['tf.math.divide_no_nan(x, 0) == 0; tf autodiff is correct for '
                'built-in ops', 'exactly one custom gradient exists (checked)']
 
